@@ -1,0 +1,142 @@
+//! Verification hooks (only compiled with the `verif_hooks` feature).
+//!
+//! Thread-local event counters / gauges that let an external monitor see which code paths a
+//! workload actually reached, plus one fault-injection knob (a per-insert eviction budget for the
+//! cuckoo filter). Nothing in here influences the behaviour of the crate unless a monitor
+//! explicitly sets the kick budget.
+use std::cell::{Cell, RefCell};
+
+macro_rules! events {
+    ($($name:ident),* $(,)?) => {
+        /// Code paths / quantities observable by a monitor.
+        #[allow(missing_docs)]
+        #[derive(Clone, Copy, Debug, PartialEq, Eq)]
+        #[repr(usize)]
+        pub enum Event { $($name),* }
+
+        /// Names of all events, indexed by `Event as usize`.
+        pub const EVENT_NAMES: &[&str] = &[$(stringify!($name)),*];
+    };
+}
+
+events!(
+    // cuckoo filter
+    CuckooInsertFirst,
+    CuckooInsertSecond,
+    CuckooKick,
+    CuckooInsertAfterKick,
+    CuckooInsertFailed,
+    CuckooRollback,
+    CuckooRollbackLenMax,
+    CuckooUnionTransferred,
+    CuckooUnionFailFirst,
+    CuckooUnionFailMiddle,
+    CuckooUnionFailLast,
+    CuckooDeleteFirst,
+    CuckooDeleteSecond,
+    CuckooDeleteMiss,
+    // quotient filter
+    QfNewRun,
+    QfRunHead,
+    QfRunMiddle,
+    QfRunAppend,
+    QfShiftStep,
+    QfWrapIncr,
+    QfWrapDecr,
+    QfFull,
+    QfKnown,
+    QfUnionCluster,
+    QfUnionRunsInClusterMax,
+    QfUnionWrappedCluster,
+    QfUnionFailFirst,
+    QfUnionFailMiddle,
+    QfUnionFailLast,
+    // t-digest
+    TdMerge,
+    TdFuse,
+    TdQuantileLeft,
+    TdQuantileInterior,
+    TdQuantileRight,
+    TdCdfBelowMin,
+    TdCdfInterior,
+    TdCdfRightTail,
+    TdCdfAtOrAboveMax,
+    // hyperloglog
+    HllCountLinear,
+    HllCountBias,
+    HllCountRaw,
+    // reservoir sampling
+    ResFill,
+    ResReplace,
+    ResNoReplace,
+    ResGapAccept,
+    ResGapSkip,
+    // lossy counter
+    LossyPrune,
+    LossyPrunedMax,
+    // cms heap
+    HeapKnown,
+    HeapRoom,
+    HeapDisplace,
+    HeapReject,
+);
+
+const N_EVENTS: usize = EVENT_NAMES.len();
+
+thread_local! {
+    static COUNTS: RefCell<Vec<u64>> = RefCell::new(vec![0; N_EVENTS]);
+    static KICK_BUDGET: Cell<usize> = const { Cell::new(usize::MAX) };
+    static KICKS_LEFT: Cell<usize> = const { Cell::new(usize::MAX) };
+}
+
+/// Count one occurrence of `e` (current thread).
+#[inline]
+pub fn hit(e: Event) {
+    COUNTS.with(|c| c.borrow_mut()[e as usize] += 1);
+}
+
+/// Raise gauge `e` to at least `v` (current thread).
+#[inline]
+pub fn gauge_max(e: Event, v: usize) {
+    COUNTS.with(|c| {
+        let mut c = c.borrow_mut();
+        let slot = &mut c[e as usize];
+        if (v as u64) > *slot {
+            *slot = v as u64;
+        }
+    });
+}
+
+/// Copy of all counters / gauges of the current thread, indexed by `Event as usize`.
+pub fn snapshot() -> Vec<u64> {
+    COUNTS.with(|c| c.borrow().clone())
+}
+
+/// Reset all counters / gauges of the current thread to zero.
+pub fn reset() {
+    COUNTS.with(|c| c.borrow_mut().iter_mut().for_each(|x| *x = 0));
+}
+
+/// Fault injection: limit the number of evictions a single cuckoo insert may perform on the
+/// current thread (`None` = the crate's own limit only).
+pub fn set_kick_budget(budget: Option<usize>) {
+    KICK_BUDGET.with(|b| b.set(budget.unwrap_or(usize::MAX)));
+}
+
+pub(crate) fn kick_begin() {
+    KICKS_LEFT.with(|l| l.set(KICK_BUDGET.with(|b| b.get())));
+}
+
+pub(crate) fn kick_allowed() -> bool {
+    KICKS_LEFT.with(|l| {
+        let left = l.get();
+        if left == 0 {
+            false
+        } else {
+            if left != usize::MAX {
+                l.set(left - 1);
+            }
+            true
+        }
+    })
+}
